@@ -26,7 +26,7 @@ func init() {
 		Rule:           "runs = 1-4 batches of 2-8 concurrent registration requests (valid for 3 candidate keys, wrong signer, altered key, replays) released in seeded orders, interleaved with restarts and with equipment / server / migration authority attempts signed by temp key, losers and winner; non-trivial = at least two valid registrations for different keys competed in one batch; distinct = distinct decision signatures",
 		Real:           []string{"RegisterGCAHandler/registerGCA/saveGCAKey", "loadGCAPubkey at restart", "AuthorizeEquipmentHandler, AuthorizedServersHandlerPOST, EquipmentMigrateHandler authority checks"},
 		Stub:           []string{"socket listeners; concurrency is the seeded release order of request tasks (one critical section per registration) - real parallel execution is covered by C13's race mode"},
-		RequiredProbes: []string{"c07.competition", "c07.replay-after-success", "c07.after-restart", "c07.loser-signs", "c07.pre-registration-authority"},
+		RequiredProbes: []string{"c07.competition", "c07.replay-after-success", "c07.after-restart", "c07.loser-signs", "c07.pre-registration-authority", "c07.degenerate-candidate"},
 		RequiredSites:  []string{"gcakey.after-write"},
 	})
 }
@@ -93,6 +93,21 @@ func runC07(m *Sim) {
 		for i := 0; i < k; i++ {
 			r := &c07Req{}
 			c := cands[m.C.Int("cand", 3)]
+			if m.C.Chance("degenerate-candidate", 1, 8) {
+				// Valid but degenerate: the temporary key names itself, or the
+				// all-zero key, as the GCA (signed by the temporary key).
+				r.kind = "valid-degenerate"
+				k := n.Temp.Pub
+				if m.C.Chance("zero-key", 1, 2) {
+					k = glow.PublicKey{}
+				}
+				r.reg = server.GCARegistration{GCAKey: k}
+				r.reg.Signature = glow.Sign(RegistrationSigningBytes(k), n.Temp.Priv)
+				valid[k] = true
+				m.Probe("c07.degenerate-candidate")
+				reqs = append(reqs, r)
+				continue
+			}
 			switch m.C.Weighted("kind", 5, 1, 1, 1) {
 			case 0:
 				r.kind = "valid-" + c.Role
